@@ -5,7 +5,12 @@
    value of V (0 for int, nil for interface types) and may itself be stored.
    Results: <<value, flag>> pairs, flags as 0/1. No result is a panic. *)
 EXTENDS Integers, Sequences, FiniteSets, TLC, Json
-CONSTANTS Keys, Vals
+CONSTANTS Keys, Vals, Cls(_), WithCmp
+\* Cls(v): the class of v under Go's == (sync.Map compares with ==): for float64 values -0.0 (value 2) and +0.0 (the zero
+\* value 0) are different values that compare equal. WithCmp = FALSE leaves out CompareAndSwap / CompareAndDelete (value
+\* types that are not comparable, e.g. slices inside an `any`: sync.Map itself panics there).
+ClsId(v) == v
+ClsF(v) == IF v = 2 THEN 0 ELSE v
 Absent == -1
 VARIABLES m, op
 Has(k) == m[k] # Absent
@@ -17,8 +22,8 @@ LoadOrStore(k, v, r) == IF Has(k) THEN r = <<m[k], 1>> /\ UNCHANGED m ELSE r = <
 LoadAndDelete(k, r) == r = <<V0(k), B(Has(k))>> /\ m' = [m EXCEPT ![k] = Absent]
 Delete(k, r) == r = <<0, 0>> /\ m' = [m EXCEPT ![k] = Absent]
 Swap(k, v, r) == r = <<V0(k), B(Has(k))>> /\ m' = [m EXCEPT ![k] = v]
-CompareAndSwap(k, old, new, r) == IF Has(k) /\ m[k] = old THEN r = <<0, 1>> /\ m' = [m EXCEPT ![k] = new] ELSE r = <<0, 0>> /\ UNCHANGED m
-CompareAndDelete(k, old, r) == IF Has(k) /\ m[k] = old THEN r = <<0, 1>> /\ m' = [m EXCEPT ![k] = Absent] ELSE r = <<0, 0>> /\ UNCHANGED m
+CompareAndSwap(k, old, new, r) == IF Has(k) /\ Cls(m[k]) = Cls(old) THEN r = <<0, 1>> /\ m' = [m EXCEPT ![k] = new] ELSE r = <<0, 0>> /\ UNCHANGED m
+CompareAndDelete(k, old, r) == IF Has(k) /\ Cls(m[k]) = Cls(old) THEN r = <<0, 1>> /\ m' = [m EXCEPT ![k] = Absent] ELSE r = <<0, 0>> /\ UNCHANGED m
 \* Range visits every present entry once (order unspecified): reported as the sorted list of <<k, v>>
 SetSeq(S) == LET RECURSIVE F(_) F(T) == IF T = {} THEN <<>> ELSE LET x == CHOOSE x \in T : \A y \in T : x <= y IN <<x>> \o F(T \ {x}) IN F(S)
 Entries == LET ks == SetSeq({k \in Keys : Has(k)}) IN [i \in 1..Len(ks) |-> <<ks[i], m[ks[i]]>>]
@@ -31,8 +36,9 @@ Next ==
   \/ \E k \in Keys, r \in Res :
        \/ (Load(k, r) /\ R("Load", <<k>>, r)) \/ (LoadAndDelete(k, r) /\ R("LoadAndDelete", <<k>>, r)) \/ (Delete(k, r) /\ R("Delete", <<k>>, r))
        \/ \E v \in Vals : \/ (Store(k, v, r) /\ R("Store", <<k, v>>, r)) \/ (LoadOrStore(k, v, r) /\ R("LoadOrStore", <<k, v>>, r))
-                          \/ (Swap(k, v, r) /\ R("Swap", <<k, v>>, r)) \/ (CompareAndDelete(k, v, r) /\ R("CompareAndDelete", <<k, v>>, r))
-                          \/ \E w \in Vals : CompareAndSwap(k, v, w, r) /\ R("CompareAndSwap", <<k, v, w>>, r)
+                          \/ (Swap(k, v, r) /\ R("Swap", <<k, v>>, r))
+                          \/ (WithCmp /\ CompareAndDelete(k, v, r) /\ R("CompareAndDelete", <<k, v>>, r))
+                          \/ (WithCmp /\ \E w \in Vals : CompareAndSwap(k, v, w, r) /\ R("CompareAndSwap", <<k, v, w>>, r))
   \/ (RangeOp(Entries) /\ R("Range", <<>>, Entries))
 vars == <<m, op>>
 Spec == Init /\ [][Next]_vars
